@@ -34,14 +34,20 @@ def mk_statp(records):
 def gen_history(rng, n):
     """events: ('statp', records) | ('refresh', off, seg) - aimed at the 0.3.19 bug class"""
     ev = []
-    hot = [rng.randrange(0, 1000) for _ in range(4)]
+    hot = [rng.randrange(1, 1000) for _ in range(4)]
+    if rng.random() < 0.5:
+        # one message: a position, an overlapping neighbour, the same position again (last writer per byte must win, in order)
+        p = rng.choice(hot)
+        ev.append(("statp", [(p, bytes([rng.randrange(256), rng.randrange(256)])), (p + rng.choice([1, -1]), bytes([rng.randrange(256), rng.randrange(256)])),
+                             (p, bytes([rng.randrange(256), rng.randrange(256)]))]))
     for _ in range(n):
         r = rng.random()
         if r < 0.62:
             k = rng.choice([0, 1, 1, 1, 2, 3, 5, rng.randrange(0, 40), 255 if rng.random() < 0.05 else 2])
             recs = []
             for _ in range(k):
-                pos = rng.choice(hot) if rng.random() < 0.6 else rng.randrange(0, 1022)
+                # records are 2-byte words: neighbouring positions OVERLAP, so order matters within one message
+                pos = min(1021, max(0, rng.choice(hot) + rng.choice([0, 0, 0, 1, -1]))) if rng.random() < 0.6 else rng.randrange(0, 1022)
                 recs.append((pos, bytes([rng.randrange(256), rng.randrange(256)])))
             ev.append(("statp", recs))
         elif r < 0.70:
